@@ -651,6 +651,10 @@ func (c *Ctx) BV2Nat(a *Term) *Term {
 	if a.Op == "ite" && constLeaves(a) {
 		return c.Ite(a.Args[0], c.BV2Nat(a.Args[1]), c.BV2Nat(a.Args[2]))
 	}
+	if a.Op == "concat" && a.Args[0].IsConst() && a.Args[0].Val.Sign() == 0 {
+		// leading zero bits do not change the value
+		return c.BV2Nat(a.Args[1])
+	}
 	if a.Op == "int2bv" {
 		// the integer was a canonical residue below 2^w: the round trip is the identity
 		t := a.Args[0]
